@@ -62,10 +62,12 @@ PROPS = {
                 "wire-dec (decode direction): streams from an independent reference encoder (split zero runs, runs crossing metric boundaries, type as "
                 "int32/int64/double, unknown types, interleaved metadata, zlib levels incl. stored, extra top-level fields) decoded by library and model.",
         "level_text": "Theorems (Props/C03.lean): decoder_complete_deltas — every spec-conformant token stream (any splitting/placement of zero runs) decodes to "
-                      "the deltas it denotes; encoder_stream_roundtrip; payload layout; type field of any BSON number type; unknown types skipped; metadata "
+                      "the deltas it denotes; encoder_stream_roundtrip; encoder_is_canonical - the stream getPayload writes is the byte rendering of a token stream that denotes exactly "
+                      "the deltas, with no zero literal and no zero run followed by another (every run maximal, also across metric boundaries); payload layout (reference document "
+                      "verbatim, counts, stream); type field of any BSON number type; unknown types skipped; metadata "
                       "documents only replace the current metadata. Byte-exact canonical payload is decided by the correspondence (model payload = library payload).",
-        "level_note": "Partial: maximality of the encoder's zero runs and 'reference verbatim' are established by byte equality with the model on every case, "
-                      "not by a separate theorem. Timestamp decoding: known finding F1.",
+        "level_note": "That the library's bytes ARE the model's canonical payload is the byte equality checked on every case of the core stream (plus the independent nonCanonical "
+                      "oracle). The outer document and zlib are checked by the independent walker, not modelled. Timestamp decoding: known finding F1.",
         "assumptions": ["inflate(deflate x) = x"],
     },
     "C04": {
